@@ -59,7 +59,7 @@ def clientOp : Node.Op → Option Client.Op
 def stepB (v : LV) (opText : String) (implPeers : String) (implSends : String) : LV × Option String :=
   match opText.splitOn " " with
   | ["reset", sdh] =>
-    ({ v with node := { client := { sdh := sdh == "1" } }, s := {}, hs := {} }, none)
+    ({ v with node := { client := { sdh := sdh.startsWith "1" } }, s := {}, hs := {} }, none)
   | toks =>
     match NodeIO.parseOp toks v.node.now with
     | none => (v, some s!"unreadable operation `{opText}`")
